@@ -30,7 +30,7 @@ def registry_root():
 def extra_src_roots():
     r = registry_root()
     out = []
-    for pat in ("revm-state-12*/src", "revm-context-18*/src/tx.rs", "revm-database-15*/src/states"):
+    for pat in ("revm-state-12*/src", "revm-context-18*/src", "revm-database-15*/src/states", "revm-context-interface-19*/src/result.rs"):
         out += sorted(glob.glob(os.path.join(r, pat)))
     return [p for p in out if os.path.isdir(p)]
 
@@ -240,9 +240,11 @@ def m_u_addsub(tr, c):
     c.ret(VScalar(f"((u64)(({a}) {op} ({b})))", "u64"))
 
 
-@model("<Uint as From>::from", rx(r"ruint::from::<impl From<(u64|usize|u8|u32|u128)> for Uint>::from"), doc="integer -> U256 (abstract width)")
+@model("Uint::from", "<Uint as From>::from", rx(r"ruint::from::<impl From<(u64|usize|u8|u32|u128)> for Uint>::from"), doc="integer -> U256 (abstract width)")
 def m_u_from(tr, c):
-    c.ret(VScalar(f"((u64)({_v(tr, c.args[0])}))", "u64"))
+    d = c.dest()
+    ct = d.node.ctype if d is not None and d.node.kind == "scalar" else "u64"
+    c.ret(VScalar(f"(({ct})({_v(tr, c.args[0])}))", ct))
 
 
 @model("Uint::min", "Uint::max", rx(r"<Uint as Ord>::(min|max)"))
